@@ -48,6 +48,29 @@ Theorem row_major_injective : forall exts idx1 idx2,
 Proof. exact ArrIndexProofs.row_major_injective. Qed.
 Print Assumptions row_major_injective.
 
+(* ... and every element is reached: for positive extents each element number below the product is
+   the row-major number of an in-range tuple (`unrank`, quotient/remainder by the trailing products).
+   With row_major_injective: indexing is a bijection between the in-range tuples and value[0 .. elems),
+   no stored element is unreachable and none is reached twice. *)
+Theorem row_major_surjective : forall exts a,
+  Forall (fun n => 0 < n) exts -> 0 <= a < prodZ exts ->
+  in_range exts (unrank exts a) /\ row_major exts (unrank exts a) = a.
+Proof. exact ArrIndexProofs.unrank_spec. Qed.
+Print Assumptions row_major_surjective.
+
+Theorem unrank_row_major : forall exts idx,
+  in_range exts idx -> unrank exts (row_major exts idx) = idx.
+Proof. exact ArrIndexProofs.unrank_row_major. Qed.
+Print Assumptions unrank_row_major.
+
+(* the hypotheses are met by a concrete 3-dimensional array *)
+Example row_major_bijection_nonvacuous :
+  Forall (fun n => 0 < n) [2; 3; 4] /\ 0 <= 17 < prodZ [2; 3; 4] /\
+  unrank [2; 3; 4] 17 = [1; 1; 1] /\ row_major [2; 3; 4] [1; 1; 1] = 17.
+Proof.
+  split; [repeat constructor|]. split; [split; [discriminate|reflexivity]|]. split; reflexivity.
+Qed.
+
 (* any dimension vector, any multipliers: the first dimension whose index is >= the extent is
    reported and the returned address is 0 (the handler reads nothing) *)
 Theorem dim_addr_oob : forall dv addr k,
